@@ -11,8 +11,10 @@ ALL shifts `k : Int` and ALL chromosome lengths `L : Int`.
                          (self-dual, or the left/right partner: covers_start ↔ covers_end,
                           left_of a b ↔ left_of (mirror b) (mirror a), cmp x y ↔ cmp y x)
 
-`overlaps_at_least` / `overlaps_at_least_when_overlap` are NOT mirror-symmetric on ties: the exact failing
-class is `EndTie`, proved in both directions (`…_mirror_iff`), with the `_witness` and the `_partial` form.
+`overlaps_at_least` / `overlaps_at_least_when_overlap` are self-dual like the others since the repair of audit2-C G7
+("containment first"); their PRE-FIX bodies (`overlapsAtLeastBuggy`, `overlapsAtLeastWhenOverlapBuggy`) were not
+mirror-symmetric on ties: the exact failing class is `EndTie`, proved in both directions (`…Buggy_mirror_iff`), with the
+`_witness` and the `_partial` form, and the fix is characterised exactly (`…_fix_exact`).
 -/
 import IsoVerif.Gen.Prims
 import IsoVerif.Gen.EventClasses
@@ -162,62 +164,107 @@ theorem mirror_dual_max_range (L : Int) (a b : Iv) :
 theorem mirror_dual_interval_len (L : Int) (a : Iv) : interval_len (mirrorIv L a) = interval_len a := by
   c11_prim_tac
 
-/-! ### the intron absence test is not mirror-symmetric on ties -/
+/-! ### the two overlap tests are self-dual (since the repair of audit2-C G7); the pre-fix bodies were not
+
+Before the fix a range INSIDE the other one that shared only its RIGHT end was sent to the partial-overlap branch
+(`range1[1] < range2[1]` is strict) while its mirror image, sharing the LEFT end, counted as contained.  A noise-free
+read truncated inside a terminal exon so that its terminal block keeps fewer than `minimal_exon_overlap` bases is such
+an input (block inside a split exon, ending at the splice site): `A_t1 unique` vs `ambiguous` for the mirror image.
+The fix tests containment first.  The generated definitions (Gen/Prims.lean) are the FIXED ones; the pre-fix bodies are
+`overlapsAtLeastBuggy` / `overlapsAtLeastWhenOverlapBuggy` (Model/C11Symmetry.lean). -/
+
+/-- full strength, ALL intervals (well formed or not), all thresholds, all L -/
+theorem mirror_dual_overlaps_at_least (L : Int) (a b : Iv) (d : Int) :
+    overlaps_at_least (mirrorIv L a) (mirrorIv L b) d = overlaps_at_least a b d := by
+  c11_prim_tac
+
+theorem mirror_dual_overlaps_at_least_when_overlap (L : Int) (a b : Iv) (d : Int) :
+    overlaps_at_least_when_overlap (mirrorIv L a) (mirrorIv L b) d = overlaps_at_least_when_overlap a b d := by
+  c11_prim_tac
+
+/-- the statements in the form the pre-fix witnesses negate -/
+def OverlapsAtLeastMirror (f : Iv → Iv → Int → Bool) : Prop :=
+  ∀ (L : Int) (a b : Iv) (d : Int), a.1 ≤ a.2 → b.1 ≤ b.2 → f (mirrorIv L a) (mirrorIv L b) d = f a b d
+
+theorem overlaps_at_least_mirror : OverlapsAtLeastMirror overlaps_at_least :=
+  fun L a b d _ _ => mirror_dual_overlaps_at_least L a b d
+theorem overlaps_at_least_when_overlap_mirror : OverlapsAtLeastMirror overlaps_at_least_when_overlap :=
+  fun L a b d _ _ => mirror_dual_overlaps_at_least_when_overlap L a b d
+
+-- the former tie inputs are positive instances on both sides now (non-degenerate: the answer is `true` although the
+-- shared part, 5 positions, is shorter than the threshold 10)
+example : overlaps_at_least (1, 5) (1, 9) 10 = true ∧ overlaps_at_least (mirrorIv 9 (1, 5)) (mirrorIv 9 (1, 9)) 10 = true ∧
+    overlaps_at_least_when_overlap (3002, 3005) (3002, 3225) 5 = true ∧
+    overlaps_at_least_when_overlap (mirrorIv 9000 (3002, 3005)) (mirrorIv 9000 (3002, 3225)) 5 = true ∧
+    overlaps_at_least (3, 20) (1, 9) 5 = true ∧ overlaps_at_least (3, 20) (1, 9) 8 = false := by decide
 
 /-- `a` and `b` share exactly one end, `a` is the shorter one and is shorter than the threshold `d`:
-    the class on which `overlaps_at_least` treats the left and the right end differently -/
+    the class on which the PRE-FIX tests treated the left and the right end differently -/
 def EndTie (a b : Iv) (d : Int) : Prop :=
   ((a.1 = b.1 ∧ a.2 < b.2) ∨ (a.2 = b.2 ∧ b.1 < a.1)) ∧ a.2 - a.1 + 1 < d
 
 instance (a b : Iv) (d : Int) : Decidable (EndTie a b d) := by unfold EndTie; infer_instance
 
-/-- full-strength statement (FALSE, see the witness): `overlaps_at_least` is self-dual -/
-def OverlapsAtLeastMirror : Prop :=
-  ∀ (L : Int) (a b : Iv) (d : Int), a.1 ≤ a.2 → b.1 ≤ b.2 →
-    overlaps_at_least (mirrorIv L a) (mirrorIv L b) d = overlaps_at_least a b d
+/-- `a` lies inside `b`, shares only its RIGHT end with it and is shorter than `d`: where the fix changes the answer -/
+def RightTie (a b : Iv) (d : Int) : Prop := a.2 = b.2 ∧ b.1 < a.1 ∧ a.2 - a.1 + 1 < d
 
-/-- exact characterisation: for well-formed intervals the test is mirror-symmetric iff there is no end tie -/
-theorem overlaps_at_least_mirror_iff (L : Int) (a b : Iv) (d : Int) (ha : a.1 ≤ a.2) (hb : b.1 ≤ b.2) :
-    overlaps_at_least (mirrorIv L a) (mirrorIv L b) d = overlaps_at_least a b d ↔ ¬ EndTie a b d := by
+instance (a b : Iv) (d : Int) : Decidable (RightTie a b d) := by unfold RightTie; infer_instance
+
+/-- the fix is local: for well-formed intervals the repaired test differs from the pre-fix one exactly on `RightTie`,
+    where it now answers `true` (like the mirror image always did) -/
+theorem overlaps_at_least_fix_exact (a b : Iv) (d : Int) (ha : a.1 ≤ a.2) (hb : b.1 ≤ b.2) :
+    overlaps_at_least a b d = (overlapsAtLeastBuggy a b d || decide (RightTie a b d)) := by
   rw [Bool.eq_iff_iff]
-  simp only [overlaps_at_least, mirrorIv, EndTie]; grind
+  simp only [overlaps_at_least, overlapsAtLeastBuggy, RightTie]; grind
 
-theorem overlaps_at_least_mirror_partial (L : Int) (a b : Iv) (d : Int) (ha : a.1 ≤ a.2) (hb : b.1 ≤ b.2)
+theorem overlaps_at_least_when_overlap_fix_exact (a b : Iv) (d : Int) :
+    overlaps_at_least_when_overlap a b d = (overlapsAtLeastWhenOverlapBuggy a b d || decide (RightTie a b d)) := by
+  rw [Bool.eq_iff_iff]
+  simp only [overlaps_at_least_when_overlap, overlapsAtLeastWhenOverlapBuggy, RightTie]; grind
+
+example : RightTie (3002, 3005) (2125, 3005) 5 ∧ overlapsAtLeastWhenOverlapBuggy (3002, 3005) (2125, 3005) 5 = false ∧
+    overlaps_at_least_when_overlap (3002, 3005) (2125, 3005) 5 = true := by decide
+
+/-- exact characterisation of the PRE-FIX test: mirror-symmetric iff there is no end tie -/
+theorem overlapsAtLeastBuggy_mirror_iff (L : Int) (a b : Iv) (d : Int) (ha : a.1 ≤ a.2) (hb : b.1 ≤ b.2) :
+    overlapsAtLeastBuggy (mirrorIv L a) (mirrorIv L b) d = overlapsAtLeastBuggy a b d ↔ ¬ EndTie a b d := by
+  rw [Bool.eq_iff_iff]
+  simp only [overlapsAtLeastBuggy, mirrorIv, EndTie]; grind
+
+theorem overlapsAtLeastBuggy_mirror_partial (L : Int) (a b : Iv) (d : Int) (ha : a.1 ≤ a.2) (hb : b.1 ≤ b.2)
     (h : ¬ EndTie a b d) :
-    overlaps_at_least (mirrorIv L a) (mirrorIv L b) d = overlaps_at_least a b d :=
-  (overlaps_at_least_mirror_iff L a b d ha hb).mpr h
+    overlapsAtLeastBuggy (mirrorIv L a) (mirrorIv L b) d = overlapsAtLeastBuggy a b d :=
+  (overlapsAtLeastBuggy_mirror_iff L a b d ha hb).mpr h
 
-/-- a read span (1,5) inside an intron (1,9) sharing its LEFT end counts as "overlapping by at least 10",
-    its mirror image (5,9) sharing the RIGHT end does not (L = 9 maps one onto the other) -/
-theorem overlaps_at_least_mirror_witness : ¬ OverlapsAtLeastMirror := by
+/-- regression witness of the fixed defect: a read span (1,5) inside an intron (1,9) sharing its LEFT end counted as
+    "overlapping by at least 10", its mirror image (5,9) sharing the RIGHT end did not (L = 9 maps one onto the other) -/
+theorem overlapsAtLeastBuggy_mirror_witness : ¬ OverlapsAtLeastMirror overlapsAtLeastBuggy := by
   intro h
   have := h 9 (1, 5) (1, 9) 10 (by decide) (by decide)
   revert this; decide
 
 -- non-vacuity of the partial form: a non-tied pair that satisfies the hypotheses and is a positive instance
-example : ¬ EndTie (3, 20) (1, 9) 5 ∧ overlaps_at_least (3, 20) (1, 9) 5 = true ∧
-    overlaps_at_least (mirrorIv 30 (3, 20)) (mirrorIv 30 (1, 9)) 5 = true := by decide
+example : ¬ EndTie (3, 20) (1, 9) 5 ∧ overlapsAtLeastBuggy (3, 20) (1, 9) 5 = true ∧
+    overlapsAtLeastBuggy (mirrorIv 30 (3, 20)) (mirrorIv 30 (1, 9)) 5 = true := by decide
 
-def OverlapsAtLeastWhenOverlapMirror : Prop :=
-  ∀ (L : Int) (a b : Iv) (d : Int), a.1 ≤ a.2 → b.1 ≤ b.2 →
-    overlaps_at_least_when_overlap (mirrorIv L a) (mirrorIv L b) d = overlaps_at_least_when_overlap a b d
-
-theorem overlaps_at_least_when_overlap_mirror_iff (L : Int) (a b : Iv) (d : Int) :
-    overlaps_at_least_when_overlap (mirrorIv L a) (mirrorIv L b) d = overlaps_at_least_when_overlap a b d
+theorem overlapsAtLeastWhenOverlapBuggy_mirror_iff (L : Int) (a b : Iv) (d : Int) :
+    overlapsAtLeastWhenOverlapBuggy (mirrorIv L a) (mirrorIv L b) d = overlapsAtLeastWhenOverlapBuggy a b d
       ↔ ¬ EndTie a b d := by
   rw [Bool.eq_iff_iff]
-  simp only [overlaps_at_least_when_overlap, mirrorIv, EndTie]; grind
+  simp only [overlapsAtLeastWhenOverlapBuggy, mirrorIv, EndTie]; grind
 
-theorem overlaps_at_least_when_overlap_mirror_partial (L : Int) (a b : Iv) (d : Int) (h : ¬ EndTie a b d) :
-    overlaps_at_least_when_overlap (mirrorIv L a) (mirrorIv L b) d = overlaps_at_least_when_overlap a b d :=
-  (overlaps_at_least_when_overlap_mirror_iff L a b d).mpr h
+theorem overlapsAtLeastWhenOverlapBuggy_mirror_partial (L : Int) (a b : Iv) (d : Int) (h : ¬ EndTie a b d) :
+    overlapsAtLeastWhenOverlapBuggy (mirrorIv L a) (mirrorIv L b) d = overlapsAtLeastWhenOverlapBuggy a b d :=
+  (overlapsAtLeastWhenOverlapBuggy_mirror_iff L a b d).mpr h
 
-theorem overlaps_at_least_when_overlap_mirror_witness : ¬ OverlapsAtLeastWhenOverlapMirror := by
+/-- the noise-free read of the audit: terminal block (3002,3005) of a 3'-truncated read inside the split exon
+    (3002,3225), threshold `minimal_exon_overlap` = 5 -- present; its mirror image (L = 9000) -- absent -/
+theorem overlapsAtLeastWhenOverlapBuggy_mirror_witness : ¬ OverlapsAtLeastMirror overlapsAtLeastWhenOverlapBuggy := by
   intro h
-  have := h 9 (1, 5) (1, 9) 10 (by decide) (by decide)
+  have := h 9000 (3002, 3005) (3002, 3225) 5 (by decide) (by decide)
   revert this; decide
 
-example : ¬ EndTie (3, 20) (1, 9) 5 ∧ overlaps_at_least_when_overlap (3, 20) (1, 9) 5 = true := by decide
+example : ¬ EndTie (3, 20) (1, 9) 5 ∧ overlapsAtLeastWhenOverlapBuggy (3, 20) (1, 9) 5 = true := by decide
 
 /-! ### left/right event names: every table that decides on event types is closed under the swap
 
